@@ -65,7 +65,7 @@ Notation fnode := (node fleaf).
 Section Run.
   Variable orc : oracle.
   Variable vt : vtable.
-  Let build_val := build_val fleaf (cf_default orc) fl_callable.
+  Let build_val := build_val fleaf (cf_validate orc) (cf_to_python orc) (cf_default orc) fl_callable fl_flag (vrun vt).
 
   (* Config(schema, **kw): keywords through _set_value on the still empty configuration, then defaults *)
   Fixpoint cf_ctor_kw (kw : list (str * pyval)) (w : world) (c : cfg) (dynamic : bool) (fs : list (str * fnode)) : world * cfg * oc :=
